@@ -19,6 +19,7 @@ RULE = (
     "model (python): delivered iff some topic with positive count is a byte-prefix of the first frame; exactly one copy; "
     "XPUB recv returns each subscriber message verbatim, in per-peer order."
     " Family takeover (states open / eof / parked): a second connection registers under an identity that is still registered, for PUB and XPUB; for XPUB `parked` the application's recv is parked on the old stream when the new one is inserted — the new connection's subscriptions must be read and honoured."
+    " Family fanout-fault: six subscribers of everything; one stalls until two 70 000-byte messages are buffered for it (above the high-water mark), then its writes fail with TimedOut / ConnectionReset; three more publishes: each of the five OTHER subscribers gets all five messages exactly once — with each subscriber as the victim in turn (the table walk's order is the hash map's)."
 )
 ASSUMPTIONS = ["PUB subscription messages are processed by its reader tasks: observed at quiescent points (after `drain`)"]
 TRUSTED = ["tokio current-thread scheduling of the PUB reader tasks (only run inside `drain`)"]
@@ -122,6 +123,56 @@ def takeover_case(typ, old_state, n):
     return c
 
 
+def fanout_fault_case(typ, victim, kind, n, nsub=6):
+    """one subscriber's connection stalls until more than the high-water mark is buffered for it, then its writes FAIL
+    (an error kind that is not a broken pipe: a timeout, a reset): delivery to every OTHER matching subscriber is
+    unaffected — each still gets every matching message exactly once, wherever the table walk meets the failing one"""
+    sc = wg.Script()
+    sc.sock(1, typ)
+    for p in range(1, nsub + 1):
+        sc.attach(1, p, "SUB", b"s%d" % p)
+        sc.reveal_msg(p, [b"\x01"])
+    if typ == "PUB":
+        sc.add("drain")
+    else:
+        for _ in range(nsub):
+            f = sc.fut()
+            sc.add(f"recv {f} 1", f"poll {f}", f"drop {f}")
+    for p in range(1, nsub + 1):
+        sc.add(f"wire {p}")
+    sc.add(f"credit {victim} 0")
+    sent = []
+    for j in range(2):
+        m = [b"big%d" % j, ("gen", 70000, 50 + j)]
+        f = sc.fut()
+        sc.add(f"send {f} 1 {wg.mtok(m)}", f"poll {f}")
+        sent.append(m)
+    sc.add(f"wrerr {victim} {kind}")
+    for j in range(3):
+        m = [b"while-%d-fails-%d" % (victim, j)]
+        sc.send_once(1, m)
+        sent.append(m)
+    for p in range(1, nsub + 1):
+        sc.add(f"wire {p}")
+    c = sc.case(f"fanout-fault-{typ}-{kind}-{victim}#{n}", ["fanout-fault"])
+    c.expect = ("fanout-fault", victim, nsub, sent)
+    return c
+
+
+def fanout_fault_oracle(case, lines):
+    res = list(zip(case.ops, lines[1:]))
+    _, victim, nsub, sent = case.expect
+    want = "wire " + wg.show_wire(sent)
+    for p in range(1, nsub + 1):
+        if p == victim:
+            continue
+        w = [l for op, l in res if op == f"wire {p}"][-1]
+        if w != want:
+            return (f"subscriber {p} is subscribed to everything and its connection is healthy, yet it did not get exactly the "
+                    f"{len(sent)} messages published while subscriber {victim}'s connection was failing: {w[:70]} (want {want[:70]})")
+    return None
+
+
 def takeover_oracle(case, lines):
     res = list(zip(case.ops, lines[1:]))
     _, typ, sent = case.expect
@@ -139,6 +190,11 @@ def cases(tier, rng):
     for typ in ("PUB", "XPUB"):
         for i, old_state in enumerate(("open", "eof") + (("parked",) if typ == "XPUB" else ())):
             out.append(takeover_case(typ, old_state, 990000 + i))
+        k = 0
+        for kind in ("TimedOut", "ConnectionReset"):
+            for victim in range(1, 7):
+                out.append(fanout_fault_case(typ, victim, kind, 980000 + k))
+                k += 1
     # safety net: seeded random schedules of these socket types over scripted pipes (partial reads, back-pressure,
     # errors, futures polled once or twice and then ABANDONED, sockets dropped) — every line predicted by the World model
     for i in range(150 if tier == "quick" else 3000):
@@ -169,6 +225,8 @@ def oracle(case, lines):
         return None
     if case.expect[0] == "takeover":
         return takeover_oracle(case, lines)
+    if case.expect[0] == "fanout-fault":
+        return fanout_fault_oracle(case, lines)
     typ, hists, order = case.expect
     res = list(zip(case.ops, lines[1:]))
     # XPUB: subscription messages verbatim and in per-peer order
